@@ -49,6 +49,8 @@ type sprintInput struct {
 	Resumes  []resumeSpec `json:"resumes"`
 	// the host stores the session after the first sprint and reads it back with these (edited) assets; same group list,
 	// queries may differ.  MaxResumes > 0: the engine's MaxResumesPerSession, so that a resume fails the session
+	// date format of the environment the trigger carries, if other than the one the assets were loaded with (YYYY-MM-DD)
+	SessionDateFormat string `json:"session_date_format,omitempty"`
 	Reload     *uniSpec `json:"reload_with,omitempty"`
 	MaxResumes int      `json:"max_resumes,omitempty"`
 	// the scenario is outside what the one-environment step model can represent (known finding F6d): oracles only
@@ -213,7 +215,7 @@ func genAction(r *hx.Rand, u *uniSpec, c *contactSpec) *modSpec {
 		case "urns":
 			var pick string
 			for try := 0; try < 8 && pick == ""; try++ {
-				s := hx.Pick(r, append(append([]string{}, goodURNs...), "telegram:abc", "tel:+593 979 111111", "mailto:notanemail", "tel:0979111111"))
+				s := hx.Pick(r, append(append(append([]string{}, goodURNs...), unstableTels...), "telegram:abc", "tel:+593 979 111111", "mailto:notanemail", "tel:0979111111"))
 				parts := strings.SplitN(s, ":", 2)
 				if len(parts) == 2 && actionSchemes[parts[0]] && strings.TrimSpace(parts[1]) == parts[1] && parts[1] != "" && !strings.Contains(s, "@(") {
 					pick = s
@@ -403,7 +405,11 @@ func runSprintCase(res *hx.Result, in *sprintInput, sh *sharder) error {
 	// ---- start
 	obs := &sprintObs{idx: 0, class: "sprint:start-" + in.Trigger, pre: toMap(contact), preC: contact.Clone(), kind: "start"}
 	var trigger flows.Trigger
-	tb := triggers.NewBuilder(u.baseEnv, flow.Reference(false), contact)
+	trigEnv := u.baseEnv
+	if in.SessionDateFormat != "" {
+		trigEnv = envs.NewBuilder().WithDateFormat(envs.DateFormat(in.SessionDateFormat)).WithAllowedLanguages("eng", "fra", "spa").WithDefaultCountry("EC").Build()
+	}
+	tb := triggers.NewBuilder(trigEnv, flow.Reference(false), contact)
 	if in.Trigger == "msg" {
 		t := tb.Msg(msgIn()).Build()
 		trigger = t
@@ -636,6 +642,15 @@ func finishSprint(res *hx.Result, u *universe, in *sprintInput, obs *sprintObs, 
 				either = append(either, "contact-merged environment: "+e)
 			}
 		}
+		// a query is written (and validated when the assets are loaded) in the assets' environment: where the session carries
+		// another date format, a date literal must still mean what it meant there
+		if in.SessionDateFormat != "" {
+			for _, e := range u.membershipErrorsEnv(session.Contact(), u.env) {
+				if !containsStr(errsS, e) && !containsStr(errsM, e) {
+					res.Fail("sprint:date-literal:assets-vs-session-date-format", in, fmt.Sprintf("after %s, with the query read in the environment the assets were loaded with (YYYY-MM-DD; session: %s): %s", where, in.SessionDateFormat, e))
+				}
+			}
+		}
 		if len(both) > 0 {
 			res.Fail(obs.class+":membership-differs-from-query", in, fmt.Sprintf("after %s: %v", where, both))
 		}
@@ -784,7 +799,13 @@ func sprintCorpus() []*sprintInput {
 	bobC := func(status string) *contactSpec {
 		return &contactSpec{Name: "Bob", Lang: "eng", Status: status, Groups: []int{0, 1, 2}, Fields: map[string]string{}}
 	}
+	litUni := &uniSpec{MaxChars: 640, UseLoc: true, Groups: []groupSpec{{Name: "S0"}, {Name: "Created after 2030", Query: `created_on > "2030/12/25"`},
+		{Name: "Created before 2025", Query: `created_on < "2025/12/25"`}}}
 	return []*sprintInput{
+		// hunt2 C06 f1: the assets are loaded with YYYY-MM-DD, the session carries DD-MM-YYYY: "2030/12/25" is not a date in
+		// the session's format; the contact (created 2019) must stay out of the first group and in the second
+		{Universe: litUni, Contact: &contactSpec{Name: "Jim", Lang: "eng", Status: "active", Groups: []int{0, 2}, Fields: map[string]string{}}, Trigger: "manual",
+			Nodes: []nodeSpec{{Actions: []*modSpec{{Kind: "name", Text: "Bob"}}, Wait: "msg"}, {}}, Resumes: []resumeSpec{{Kind: "msg"}}, SessionDateFormat: "DD-MM-YYYY", OracleOnly: true},
 		// F6f (fixed): group Bobs is edited while Bob waits and the resume fails the session (resume limit): the session is
 		// handed back failed, and its contact must still have left Bobs, with an event
 		{Universe: bobsUni(`name = "bob"`, "QNameIs "+hx.Str("bob")), Contact: bobC("active"), Trigger: "manual", Nodes: []nodeSpec{{Wait: "msg"}, {}},
